@@ -56,8 +56,32 @@ Theorem C04_lib_join_request :
       encode_join_request E appkey JoinRequest c_MaxSupportedVersion j =
         Ok (ref_join_request E appkey (le_bytes 8 (jr_appeui j)) (le_bytes 8 (jr_deveui j)) (be_bytes 2 (jr_devnonce j))).
 Proof. exact encode_join_request_is_ref. Qed.
+(* Forged join-requests handled AT THE SAME TIME as a genuine one, for every schedule: the pool is the genuine request's handler
+   and any number of other handlers of the device - uplink handlers (any frames) and join handlers of requests whose MIC does
+   not verify under the device's AppKey - interleaved operation by operation in every order and cut anywhere. Every join-accept
+   that leaves answers the genuine request (the encoding, under the AppKey, of the record built from its AppNonce and the
+   address), and when one has left the stored session is the one derived from the genuine request's DevNonce: whatever the
+   interleaving, a forged request is not answered and does not change the keys. (The forced schedules of kind forged-join run
+   this on the real pipeline.) *)
+From Lospan Require Import Gen.Consts Model.Steps Proof.LocalProof Proof.SessionDataProof Proof.SessionAcceptProof.
+Theorem C04_forged_joins_alongside_a_genuine_one :
+  forall (E D : list N -> list N -> list N) apps cfg jf jrx appnonce newaddr others sched fuel st r,
+    ds_row st = Some r -> fb_noja st -> Forall (bystander E D r) others ->
+    let res := interleaveN apps sched fuel st (join_prog E D cfg jf jrx appnonce newaddr :: others) [] in
+    let addr := if (d_addr r =? 0)%N then newaddr else d_addr r in
+    Forall (fun raw => encode_join_accept E D (d_appkey r) JoinAccept c_MaxSupportedVersion
+                         {| ja_appnonce := appnonce; ja_netid := N.land (cfg_netid cfg) 4294967295; ja_devaddr := devaddr_of_u32 addr;
+                            ja_rx1droffset := 0; ja_rx2dr := 5; ja_rxdelay := 1 |} = Ok raw) (ja_raws (snd res)) /\
+    (ja_raws (snd res) <> [] ->
+     exists x, ds_row (fst res) = Some x /\
+       d_nwkskey x = nwkskey_from_nonces E (d_appkey r) appnonce (cfg_netid cfg) (jr_devnonce (jr jf)) /\
+       d_appskey x = appskey_from_nonces E (d_appkey r) appnonce (cfg_netid cfg) (jr_devnonce (jr jf)) /\
+       d_addr x = addr /\ d_appkey x = d_appkey r).
+Proof. exact forged_joins_alongside_a_genuine_one. Qed.
+
 
 Print Assumptions C04_forged_no_effect.
 Print Assumptions C04_honoured.
 Print Assumptions C04_session_agrees.
 Print Assumptions C04_lib_join_request.
+Print Assumptions C04_forged_joins_alongside_a_genuine_one.
